@@ -378,6 +378,7 @@ def apply_reference(repo):
             _thread_none_tests(repo.funcs[q].node)
     repo.inlined_local_functions = inline_local_functions(repo, ref)
     repo.stdlib_equivalents = stdlib_equivalents(repo, ref)
+    repo.counted_loops = counted_loops(repo, ref)
     repo.suppress_forms = suppress_to_try(repo, ref)
     repo.records = expand_records(repo, ref)
     repo.struct_objects = expand_struct_objects(repo, ref)
@@ -980,6 +981,29 @@ def _reshape(fi, ref_q):
                         n_changed += 1
                         again = True
                         break
+                if form is None and not st.orelse and i + 1 < len(blk) and ifs.get(_txt(_neg(st.test))) == "noelse" and _always_leaves(blk[i + 1:]):
+                    # `if T: A (leaves); rest (leaves)`  where the reference has the guard `if not T: rest'` in front of A': exchanged
+                    rest = blk[i + 1:]
+                    del blk[i + 1:]
+                    body = st.body
+                    st.body = rest
+                    for r in rest:
+                        r._parent = st
+                    new_t = ast.parse(ast.unparse(_neg(st.test)), mode="eval").body
+                    for y in ast.walk(new_t):
+                        ast.copy_location(y, st.test)
+                        for c_ in ast.iter_child_nodes(y):
+                            c_._parent = y
+                    new_t._parent = st
+                    st.test = new_t
+                    blk[i + 1:i + 1] = body
+                    for b_ in body:
+                        b_._parent = owner
+                    _invalidate(st)
+                    _invalidate(owner)
+                    n_changed += 1
+                    again = True
+                    break
                 if form == "else" and not st.orelse and i + 1 < len(blk):
                     rest = blk[i + 1:]
                     del blk[i + 1:]
@@ -1333,6 +1357,63 @@ def local_buffers(repo, ref_or_new):
                 blk[i:i + 1] = [new] + st.body
                 _invalidate(owner)
                 done.setdefault(q, []).append(x)
+    return done
+
+
+def counted_loops(repo, ref):
+    """two spellings of "n times" as a while loop, where the reference counts with range and n is a name the function tests with
+    isinstance(n, int):
+        v = n; while v > 0: BODY; v -= 1      (v a new local used for nothing else; the decrement is a top-level statement of the
+                                               body, which has no continue)                          ->  for v in range(n): BODY
+        while len(L) < n: L.append(E)         (L bound to an empty list display just before, the append is the whole body)
+                                                                                                     ->  for _i in range(n): L.append(E)"""
+    done = {}
+    for q, fi in repo.funcs.items():
+        if fi.is_lambda or q not in ref:
+            continue
+        int_tested = {norm_arg for n_ in walk_own(fi.node) if isinstance(n_, ast.Call) and isinstance(n_.func, ast.Name) and n_.func.id == "isinstance" and len(n_.args) == 2
+                      and isinstance(n_.args[0], ast.Name) and ast.unparse(n_.args[1]) == "int" for norm_arg in [n_.args[0].id]}
+        for owner, field, blk in _blocks(fi.node):
+            for i, st in enumerate(blk):
+                if not (isinstance(st, ast.While) and not st.orelse and isinstance(st.test, ast.Compare) and len(st.test.ops) == 1):
+                    continue
+                if any(isinstance(x, ast.Continue) for s_ in st.body for x in ast.walk(s_)):
+                    continue
+                t = st.test
+                new = None
+                if isinstance(t.ops[0], ast.Gt) and isinstance(t.left, ast.Name) and isinstance(t.comparators[0], ast.Constant) and t.comparators[0].value == 0 and i >= 1:
+                    v = t.left.id
+                    prev = blk[i - 1]
+                    decs = [k for k, b_ in enumerate(st.body) if isinstance(b_, ast.AugAssign) and isinstance(b_.op, ast.Sub) and isinstance(b_.target, ast.Name) and b_.target.id == v
+                            and isinstance(b_.value, ast.Constant) and b_.value.value == 1]
+                    uses = [x for x in walk_own(fi.node) if isinstance(x, ast.Name) and x.id == v]
+                    if isinstance(prev, ast.Assign) and len(prev.targets) == 1 and isinstance(prev.targets[0], ast.Name) and prev.targets[0].id == v and isinstance(prev.value, ast.Name) \
+                            and prev.value.id in int_tested and len(decs) == 1 and len(uses) == 3 and v not in fi.params \
+                            and not any(isinstance(x, ast.Name) and x.id == prev.value.id and isinstance(x.ctx, ast.Store) for s_ in st.body for x in ast.walk(s_)):
+                        body = [b_ for k, b_ in enumerate(st.body) if k != decs[0]] or [ast.Pass()]
+                        new = _fresh_stmt("for %s in range(%s):\n    pass" % (v, prev.value.id), st, owner)[0]
+                        new.body = body
+                        for b_ in body:
+                            b_._parent = new
+                        blk[i - 1:i + 1] = [new]
+                elif isinstance(t.ops[0], ast.Lt) and isinstance(t.left, ast.Call) and ast.unparse(t.left.func) == "len" and len(t.left.args) == 1 and isinstance(t.left.args[0], ast.Name) \
+                        and isinstance(t.comparators[0], ast.Name) and t.comparators[0].id in int_tested and len(st.body) == 1 and i >= 1:
+                    L, n_ = t.left.args[0].id, t.comparators[0].id
+                    b_ = st.body[0]
+                    prev = blk[i - 1]
+                    if isinstance(b_, ast.Expr) and isinstance(b_.value, ast.Call) and ast.unparse(b_.value.func) == "%s.append" % L and len(b_.value.args) == 1 and not b_.value.keywords \
+                            and not any(isinstance(x, ast.Name) and x.id in (L, n_) for x in ast.walk(b_.value.args[0])) \
+                            and isinstance(prev, ast.Assign) and len(prev.targets) == 1 and isinstance(prev.targets[0], ast.Name) and prev.targets[0].id == L \
+                            and isinstance(prev.value, ast.List) and not prev.value.elts:
+                        new = _fresh_stmt("for _i in range(%s):\n    pass" % n_, st, owner)[0]
+                        new.body = st.body
+                        for x_ in new.body:
+                            x_._parent = new
+                        blk[i] = new
+                if new is not None:
+                    _invalidate(owner)
+                    done.setdefault(q, []).append(ast.unparse(t))
+                    break
     return done
 
 
